@@ -15,12 +15,24 @@
              feature id, its Ref, element id, its Version.  Judgement 2 here is not the property
              but the closed formulas of C10/OutOfRange.v (reference mod 2^40, version mod 2^16,
              type field = kind code OR bits 40..46 of r, sign = bit 47 of r)
+   11 BIGSORT: which(0 ElementIDs.Sort, 1 FeatureIDs.Sort, 2 Elements.Sort) mode n seed
+             | length of the output, first index i with out[i-1] > out[i] (-1: none),
+               sum / sum-of-squares / rolling hash of the output (32-bit).
+             The list itself is NOT sent: both sides expand (mode, n, seed) with the same
+             generator (mode 0: 64-bit LCG; 1: n-1 descending way ids then one node id;
+             2: ascending node ids with the last three reversed).  Judgement 1: the rolling hash
+             of the model's sorted list (merge sort of the expanded ids) equals the observed one;
+             judgement 2: the output is in order and has the multiset hashes of the input.
+   12 STRSEQ : which(0 ObjectID.String, 1 ElementID.String, 2 FeatureID.String) n (k r v)*
+             | n times: the string KEPT since its call and read after ALL calls were made,
+               whether it still equals the copy taken when it was returned, and the result of
+               parsing the kept string (ok, id).  State carried across calls.
    4 CONV  : k r v (element kind, in range) | for K in node, way, relation:
              (ok, value) of FeatureID.KID() on the feature id, then the same three for
              ElementID.KID() on the element id  (ok = did not panic)
    codes: 1 = model <> implementation, 2 = property oracle fails on the observation,
           0 = case does not parse. *)
-From Coq Require Import ZArith List String Ascii Bool.
+From Coq Require Import ZArith List String Ascii Bool Mergesort Orders Lia.
 From Verif Require Import Base.Wire Base.Int64 C10.Model.
 From VerifGen Require Import GenIds.
 Import ListNotations.
@@ -236,6 +248,102 @@ Definition check_oor : P (list Z) :=
     && Bool.eqb (fid <? 0) (Z.testbit r 47) in
   ret (code_if j1 1 ++ code_if j2 2)%list.
 
+(* ---- BIGSORT: long lists, described by generator parameters ---- *)
+Module ZLe <: TotalLeBool.
+  Definition t := Z.
+  Definition leb := Z.leb.
+  Theorem leb_total : forall a1 a2, leb a1 a2 = true \/ leb a2 a1 = true.
+  Proof. intros a1 a2. unfold leb. destruct (Z.leb_spec a1 a2); [left; reflexivity|right; apply Z.leb_le; lia]. Qed.
+End ZLe.
+Module ZSort := Sort ZLe.
+
+(* bit operations instead of division: Z division is slow inside vm_compute *)
+Definition mask64 : Z := 18446744073709551615.
+Definition mask40 : Z := 1099511627775.
+Definition mask32 : Z := 4294967295.
+Definition lcg_next (x : Z) : Z := Z.land (6364136223846793005 * x + 1442695040888963407) mask64.
+
+Definition kind_of_index (i : Z) : kind := if i =? 1 then KWay else if i =? 2 then KRelation else KNode.
+
+Fixpoint gen_random (n : nat) (x : Z) : list (kind * Z * Z) :=
+  match n with
+  | O => []
+  | S m =>
+      let y := lcg_next x in
+      (kind_of_index (Z.land (Z.shiftr y 33) 3), Z.land (Z.shiftr y 13) mask40, Z.land y 65535)
+        :: gen_random m y
+  end.
+
+Fixpoint gen_desc_ways (n : nat) (i : Z) : list (kind * Z * Z) :=
+  match n with
+  | O => []
+  | S m => (KWay, i, 1) :: gen_desc_ways m (i - 1)
+  end.
+
+Fixpoint gen_asc_nodes (i : Z) (n : nat) : list (kind * Z * Z) :=
+  match n with
+  | O => []
+  | S m => (KNode, i, 1) :: gen_asc_nodes (i + 1) m
+  end.
+
+Definition gen_big (mode : Z) (n : nat) (seed : Z) : list (kind * Z * Z) :=
+  if mode =? 0 then gen_random n seed
+  else if mode =? 1 then
+    match n with O => [] | S m => (gen_desc_ways m (Z.of_nat m) ++ [(KNode, 1, 1)])%list end
+  else
+    match n with
+    | S (S (S m)) =>
+        let base := Z.of_nat m in
+        (gen_asc_nodes 1 m ++ [(KNode, base + 3, 1); (KNode, base + 2, 1); (KNode, base + 1, 1)])%list
+    | _ => gen_asc_nodes 1 n
+    end.
+
+(* three 32-bit hashes of a list of ids (uint32 wrap-around arithmetic on the Go side):
+   sum, sum of squares (order-insensitive) and a rolling hash (order-sensitive) *)
+Definition hB : Z := 1000003.
+Definition hashes (l : list Z) : Z * Z * Z :=
+  fold_left (fun '(su, sq, ro) id =>
+               let m := Z.land (Z.lxor id (Z.shiftr id 29)) mask32 in
+               (Z.land (su + m) mask32, Z.land (sq + m * m) mask32, Z.land (ro * hB + m) mask32))
+            l (0, 0, 0).
+
+Definition check_bigsort : P (list Z) :=
+  which <- pint ;; mode <- pint ;; n <- pnat ;; seed <- pint ;;
+  olen <- pint ;; dis <- pint ;; osu <- pint ;; osq <- pint ;; oro <- pint ;;
+  let inp := gen_big mode n seed in
+  let ids := map (fun '(k, r, v) => if which =? 1 then feature_id k r else element_id k r v) inp in
+  let '(_, _, mro) := hashes (ZSort.sort ids) in
+  let j1 := (mro =? oro) && (olen =? Z.of_nat n) in
+  let spec_ids := map (fun '(k, r, v) => pack k r (if which =? 1 then 0 else v)) inp in
+  let '(isu, isq, _) := hashes spec_ids in
+  let j2 := (dis =? -1) && (olen =? Z.of_nat n) && (osu =? isu) && (osq =? isq) in
+  ret (code_if j1 1 ++ code_if j2 2)%list.
+
+(* ---- STRSEQ: strings kept across later String() calls ---- *)
+Definition pkept : P (string * bool * option Z) :=
+  s <- pstring ;; same <- pbool ;; o <- pobs ;; ret (s, same, o).
+
+Fixpoint check_kept (which : Z) (inp : list (kind * Z * Z)) (obs : list (string * bool * option Z))
+  : bool * bool :=
+  match inp, obs with
+  | [], [] => (true, true)
+  | (k, r, v) :: inp', (s, same, o) :: obs' =>
+      let id := if which =? 2 then feature_id k r else if which =? 1 then element_id k r v else object_id k r v in
+      let ms := if which =? 2 then feature_id_string id else if which =? 1 then element_id_string id else object_id_string id in
+      let mp := if which =? 2 then parse_feature_id s else if which =? 1 then parse_element_id s else parse_object_id s in
+      let want := if which =? 2 then pack k r 0 else pack k (norm_r k r) (norm_v k v) in
+      let '(a, b) := check_kept which inp' obs' in
+      (String.eqb ms s && oZ_eqb mp o && a,
+       (* the text kept since the call is still the text of THAT id and parses back to it *)
+       same && oZ_eqb o (Some want) && b)
+  | _, _ => (false, false)
+  end.
+
+Definition check_strseq : P (list Z) :=
+  which <- pint ;; inp <- plist ptriple ;; obs <- plist pkept ;;
+  let '(j1, j2) := check_kept which inp obs in
+  ret (code_if j1 1 ++ code_if j2 2)%list.
+
 Definition check_case (t : toks) : list Z :=
   match t with
   | tag :: rest =>
@@ -249,6 +357,8 @@ Definition check_case (t : toks) : list Z :=
                else if tag =? 16 then check_member
                else if tag =? 18 then check_typef
                else if tag =? 20 then check_oor
+               else if tag =? 22 then check_bigsort
+               else if tag =? 24 then check_strseq
                else pfail in
       match parse_all p rest with Some codes => codes | None => [0] end
   | [] => [0]
